@@ -6,6 +6,8 @@ ENGINES = [
          kind_free_text='program model (classes, MRO, imports, alias families) + path-sensitive symbolic evaluator producing provenance terms, effects and guards; AC pattern matching with audio-parameter roles'),
     dict(name='E5-nullness', path='sa/nullness.py', serves_properties=['C10', 'C18'], kind_free_text='nullness of read() results with interprocedural dereference/return summaries'),
     dict(name='E6-effects', path='sa/effects.py', serves_properties=['C17', 'C19', 'C20'], kind_free_text='transitive write-effect analysis over resolved callees'),
+    dict(name='E3-fd traces', path='sa/props/c12.py sa/props/c13.py sa/props/c14.py (on sa/symex.py)', serves_properties=['C12', 'C13', 'C14'], kind_free_text='path enumeration of worker loops and hooks with messages abstracted to NONE/STOP/DATA; trace predicates over ordered effects'),
+    dict(name='E7-cli tables', path='sa/props/c15.py', serves_properties=['C15'], kind_free_text='argparse / make_kwargs / consumer / documentation table extraction and comparison'),
     dict(name='E3-tokenizer', path='sa/absint.py sa/tokenizer.py sa/linear.py sa/tokrun.py', serves_properties=['C01', 'C02', 'C03', 'C04', 'C08', 'C20'],
          kind_free_text='AST-driven abstract interpreter of StreamTokenizer + Houdini invariant inference over unit-typed linear templates; entailment by own Gaussian/Fourier-Motzkin elimination'),
 ]
@@ -88,6 +90,20 @@ CHECKS += [
     dict(id='C19', engine='E4-provenance + E6-effects', level='other', design_ref='DESIGN.md 4.19',
          technique='static analysis: provenance of the recorder cache/rewind paths, reset-completeness of wrapper state (fields written on the read path vs re-initialised by rewind), attribute-hiding guards',
          text='Decides cache-once, the first/later rewind paths, data-before-rewind guard, reset-completeness and inward propagation of rewind in every wrapper, and that non-recording readers hide data/rewind. Replay equality over histories is argued, not computed.',
+         note=STRUCT_NOTE),
+ ]
+CHECKS += [
+    dict(id='C13', engine='E3-fd traces', level='other', design_ref='DESIGN.md 4.13, B.6',
+         technique='static analysis: finite-domain path enumeration of saver.read / writer hooks / drain loops (message in {DATA, STOP, Empty}), effect-order rules, provenance of the separator and file-name placeholders, role rule',
+         text='Decides forward-once-before-return, cache-once, flush = join(cache) + empty, drain -> flush -> close, joiner first/later event typestate, separator = make_silence(...).data, region saver placeholders. File contents under schedules are argued from these facts.',
+         note=WORK_NOTE),
+    dict(id='C14', engine='E3-fd traces + E3-tokenizer', level='other', design_ref='DESIGN.md 4.14',
+         technique='static analysis: path enumeration of the stop poll and TokenizerWorker.read (poll dominates read, no read after stop), call-order rules for stop_all / close, CLI handler structure; end-of-stream flush via the C04 obligations',
+         text='Decides that a stop turns the next read into end-of-stream without pulling a block, that stop_all stops the tokenizer before observers and reader, saver shutdown order, and the CLI handler wiring; the flush semantics are the proved C04 obligations. Crash points are not enumerated.',
+         note=WORK_NOTE),
+    dict(id='C15', engine='E7-cli tables', level='other', design_ref='DESIGN.md 3.7, 4.15, B.4, B.5',
+         technique='static analysis: extraction of the argparse table, the make_kwargs key map (all paths) and the consumers\' keyword reads; comparison with the spec table, the documented defaults (doc/command_line_usage.rst) and API defaults; formatter divmod-chain provenance',
+         text='Decides the flag -> dest -> keyword -> consumer chain with types and defaults for 22 options, -q/-j wiring and exit codes, PrintWorker placeholders, and the time-formatter table. End-to-end stdout is not computed.',
          note=STRUCT_NOTE),
 ]
 _PENDING = 'check not built yet in this session (planned in DESIGN.md section 4); not claimed until its checker exists'
